@@ -8,6 +8,7 @@
 import Puan.Model.Eval
 import Puan.Model.Build
 import Puan.Model.Encode
+import Puan.Model.Json
 namespace Puan
 namespace Hist
 
@@ -19,12 +20,14 @@ inductive Call where
   | negate
   | encode (active : Bool)
   | flatten
+  | jsonRoundtrip (cfg : Bool)      -- `from_json(to_json(x))` with plog's (false) or the configurator's (true) class map
 
 inductive Out where
   | bnd (b : Bnd)
   | props (l : List (String × Bnd))
   | tree (t : P)
   | rows (r : List Row)
+  | otree (t : Option P)
 
 /-- the result of a call: a function of the receiver's current value only -/
 def out (t : P) : Call → Out
@@ -35,6 +38,7 @@ def out (t : P) : Call → Out
   | .negate => .tree (P.negate t)
   | .encode a => .rows (P.encode a t)
   | .flatten => .props (P.flatIB t)
+  | .jsonRoundtrip cfg => .otree ((PJ.toAst cfg (P.toJson t)).map Ast.build)
 
 abbrev Heap := List P
 
